@@ -8,6 +8,7 @@ import Wax.RuleS
 import Wax.Proofs.RuleSpecEquiv
 import Wax.Proofs.DepthTree
 import Wax.Proofs.ExhShape
+import Wax.Proofs.PartitionAll
 /-! Executable fragment tests of the query theorems (`exhaustive_sound_partial`,
 `depth_sound_partial`, `text_exact`), used as classifiers by the checks. -/
 namespace Wax
@@ -61,6 +62,20 @@ def cmdF10 (t : Tok) : String :=
       let solidOk := runs.all (fun r => r.isEmpty || r.any solid)
       if !midOk then ["K-DEPTH-ADJACENT-SEP"] else if !solidOk then ["K-DEPTH-NULLABLE"] else []
   showFrag (own ++ encTags t)
+
+/-- hypothesis of `partition_lang_all_partial` (`partOk`), plus `F01` of the glob and of the postfix
+    for the compiled programs -/
+def cmdFP (κ : Casing) (t : Tok) : String :=
+  let own : List String :=
+    if partOk κ t then [] else
+    if firstRootedVariant κ t.concatenation then ["K-PART-ROOTED-BRANCH"]
+    else if !wellL (cutToks κ t) then ["K-PART-SEPCLASS"]
+    else if !keptUnrooted κ t then ["K-PART-ROOTED-BRANCH"]
+    else ["K-PART-LEAD-TREE"]
+  let post : List String := match (partition κ t).2.2 with
+    | some q => encTags q
+    | none => []
+  showFrag (own ++ encTags t ++ post)
 
 def cmdESC (s : Str) : String :=
   let bits : String := String.ofList (s.map fun c =>
